@@ -361,3 +361,19 @@ def reformat1(resource, xy):
 
 def reformat_ok(resource, xy):
     raise TemplateError("{} over-allocated on {}", resource, xy)
+
+
+def defaultleak1(table, aliases=dict()):
+    if not table:
+        return table, aliases
+    aliases = dict(aliases)
+    aliases[table[0]] = 1
+    return table, aliases
+
+
+def defaultleak_ok(table, aliases=dict(), seen=None):
+    aliases = dict(aliases)
+    if not table:
+        return table, aliases
+    aliases[table[0]] = 1
+    return table, aliases
